@@ -596,4 +596,4 @@ mod tests {
 
 #[cfg(kani)]
 #[path = "/verif/units/kani/core_page_id.rs"]
-mod verif_kani;
+pub(crate) mod verif_kani;
